@@ -58,7 +58,34 @@ package ice
 
 //@ func (*UDPMuxDefault).RemoveConnByUfrag
 //@   props C12
+//@   modifies fam:M_string_*, fam:M_netip.AddrPort_*
 //@   requires m.connsIPv4 != nil && m.connsIPv6 != nil
 //@   ensures no-longer-registered-in-either-family: !has(m.connsIPv4, ufrag) && !has(m.connsIPv6, ufrag)
 //@   site call getAddresses#1 assert bindings-of-each-removed-conn: arg0 == c
 //@   site call delete#3 assert clears-every-address-binding: arg0 == m.addressMap && arg1 == addr
+
+// The close watcher started by GetConn for every connection it creates: once the
+// connection is closed, the mux forgets it — its ufrag registration and every
+// address binding it still owns.
+//@ func (*UDPMuxDefault).GetConn$1
+//@   props C12
+//@   requires m.connsIPv4 != nil && m.connsIPv6 != nil && m.addressMap != nil && muxedConn != nil
+//@   ensures closed-conn-keeps-no-address-binding: forall i int :: 0 <= i && i < len(muxedConn.addresses) ==> !(has(m.addressMap, muxedConn.addresses[i]) && m.addressMap[muxedConn.addresses[i]] == muxedConn)
+//@   ensures closed-conn-is-unregistered: !has(m.connsIPv4, ufrag) && !has(m.connsIPv6, ufrag)
+
+//@ func (*udpMuxedConn).getAddresses
+//@   props C12
+//@   modifies nothing
+//@   ensures a-fresh-copy-of-the-binding-list: fresh(result) && len(result) == len(c.addresses) && (forall i int :: 0 <= i && i < len(result) ==> result[i] == c.addresses[i])
+
+//@ func (*UDPMuxDefault).removeConnAddresses
+//@   props C12
+//@   requires m.addressMap != nil && conn != nil
+//@   modifies fam:M_netip.AddrPort_*
+//@   loop 1 invariant index-in-range: rangeindex + 1 <= len(conn.addresses)
+//@   loop 1 invariant earlier-addresses-are-unbound: forall i int :: 0 <= i && i <= rangeindex ==> !(has(m.addressMap, conn.addresses[i]) && m.addressMap[conn.addresses[i]] == conn)
+//@   site call delete#1 assert removes-only-its-own-bindings: arg0 == m.addressMap && arg1 == addr && m.addressMap[addr] == conn
+//@   ensures none-of-its-addresses-is-still-bound-to-it: forall i int :: 0 <= i && i < len(conn.addresses) ==> !(has(m.addressMap, conn.addresses[i]) && m.addressMap[conn.addresses[i]] == conn)
+
+// The address map object is created with the mux and never replaced.
+//@ immutable C12 ice.UDPMuxDefault.addressMap in NewUDPMuxDefault
